@@ -363,7 +363,43 @@ theorem verbose_lists_exactly_loaded (s : Settings) (cat : List CheckSel) (c : C
     c ∈ verboseListing s cat ↔ c ∈ cat ∧ shouldLoad s c = true := by
   simp [verboseListing, List.mem_filter]
 
+/-! ### One check, several spellings -/
+
+/-- **A check's code may be written with or without the default prefix**: `NNN` and `FURBNNN` parse to the same
+    `ErrorCode`, for every three-digit id — so whichever spelling an `enable`, `disable` or `ignore` entry uses (also mixed
+    between the two lists of a config file, or between config file and command line), the ladder sees ONE classifier. -/
+theorem code_spelling_irrelevant (ds : List Char) (hl : ds.length = 3) (hd : ds.all isPyDigit = true) :
+    parseErrorId (String.ofList ds) = parseErrorId ("FURB" ++ String.ofList ds) := by
+  match ds, hl with
+  | [a, b, c], _ =>
+    simp only [List.all_cons, List.all_nil, Bool.and_true, Bool.and_eq_true] at hd
+    obtain ⟨ha, hb, hc⟩ := hd
+    have hnc : c ≠ '\n' := by intro h; subst h; revert hc; decide
+    simp [parseErrorId, String.toList_append, hnc, ha, hb, hc, isAZ]
+
+/-- **Inside a config file `disable` beats `enable`, on the settings `parse_config_file` really returns** (the whole
+    function of Model/Settings.lean, every key and failure path included): whenever a `[tool.refurb]` table is accepted, no
+    classifier of the resulting `disable` set is left in the `enable` set.  Together with `code_spelling_irrelevant` this
+    covers entries that name one check in two spellings (`enable = ["FURB901"]`, `disable = [901]`). -/
+theorem config_file_disable_beats_enable (envColor : Bool) (cfg : Table) (s : Settings)
+    (h : parseConfigTable envColor cfg = .ok s) : ∀ x, x ∈ s.disable → x ∉ s.enable := by
+  unfold parseConfigTable at h
+  simp only [bind, Except.bind] at h
+  repeat' (split at h <;> try (first | contradiction | (cases h; done)))
+  all_goals (try cases h)
+  all_goals (intro x hx; simp [List.mem_filter, hx])
+
+deriving instance DecidableEq for Except
+
 /-! ### Non-vacuity: the hypotheses above are met by concrete option lists -/
+
+example : parseClassifier "901" = parseClassifier "FURB901" := by decide +kernel
+example : parseClassifier "901" = .ok { cls := .code "FURB" 901 } := by decide +kernel
+/-- a TOML integer in `enable = [901]` is read through `str(x)`: a third spelling of the same classifier -/
+example : parseClassifier (Toml.int 901).pyStr = parseClassifier "FURB901" := by decide +kernel
+/-- `enable = ["FURB901"]` + `disable = [901]` is accepted and leaves the check disabled -/
+example : (parseConfigTable false [("enable", .arr [.str "FURB901"] ""), ("disable", .arr [.int 901] "")]).toOption.map
+    (fun s => (s.enable, s.disable)) = some ([], [{ cls := .code "FURB" 901 }]) := by decide +kernel
 
 def k901 : CheckSel := { pfx := "FURB", code := 901, categories := ["c1"], enabled := true }
 def c901 : Clsf := { cls := .code "FURB" 901 }
